@@ -321,9 +321,18 @@ def run(ctx):
           # a pattern variable with the name of a record field is the payload, not the field
           ("eswsh", "un", [("int32 ia", "ia * 2"), ("string s", "0 - 5")], lambda v: (v["un"][1] * 2) if v["un"][0] == 0 else -5),
           ("eswsho", "opt", [("int32 ib", "ib + 1"), ("_", "ib")], lambda v: v["ib"] if v["opt"] is None else v["opt"][1] + 1),
-          ("eswnu", "nou", [("int32 i", "i + 3"), ("string s", "0 - 3"), ("_", "9")], lambda v: 9 if v["nou"] is None else ((v["nou"][1] + 3) if v["nou"][0] == 0 else -3))]
+          ("eswnu", "nou", [("int32 i", "i + 3"), ("string s", "0 - 3"), ("_", "9")], lambda v: 9 if v["nou"] is None else ((v["nou"][1] + 3) if v["nou"][0] == 0 else -3)),
+          # optionals that hold a value which is "false" in a truth test: 0, "", false, 0.0, an empty vector - present all the same
+          ("eswzs", "ostr", [("string s", "1"), ("_", "0 - 1")], lambda v: -1 if v["ostr"] is None else 1),
+          ("eswzb", "obool", [("bool b", "1"), ("_", "0 - 1")], lambda v: -1 if v["obool"] is None else 1),
+          ("eswzf", "ofl", [("float64 x", "x + 1.0"), ("_", "0.0 - 1.0")], lambda v: -1.0 if v["ofl"] is None else v["ofl"][1] + 1.0),
+          ("eswzv", "ovec", [("int32* w", "(size(w) as int32) + 1"), ("_", "0 - 1")], lambda v: -1 if v["ovec"] is None else len(v["ovec"][1]) + 1),
+          ("eswzr", "opt", [("int32 x", "x + 1"), ("_", "0 - 1")], lambda v: -1 if v["opt"] is None else v["opt"][1] + 1),
+          # arms of three different widths: each arm is converted to the common type directly, not through the types of the arms before it
+          ("esw3a", "num3", [("int32 i", "i"), ("float32 f", "f"), ("float64 d", "d")], lambda v: float(v["num3"][1])),
+          ("esw3b", "num3", [("float32 f", "f"), ("int32 i", "i"), ("float64 d", "d")], lambda v: float(v["num3"][1]))]
     emodel = ("ENamedUn: [int32, string]\nEInner: !record\n  fields:\n    p: int32\n    q: int32\nEx: !record\n  fields:\n    ia: int32\n    ib: int32\n    ic: int32\n    da: float64\n    db: float64\n    dc: float64\n"
-              "    vec: int32*\n    arr: 'int32[row, col]'\n    farr: 'int32[2, 2]'\n    mp: string->int32\n    inner: EInner\n    un: [int32, string]\n    opt: int32?\n    nun: ENamedUn\n    nou: [null, int32, string]\n    arrt: 'int32[col, row]'\n    dimname: string\n    big1: int32\n    big2: int32\n    ubig: uint32\n  computedFields:\n")
+              "    vec: int32*\n    arr: 'int32[row, col]'\n    farr: 'int32[2, 2]'\n    mp: string->int32\n    inner: EInner\n    un: [int32, string]\n    opt: int32?\n    nun: ENamedUn\n    nou: [null, int32, string]\n    ostr: string?\n    obool: bool?\n    ofl: float64?\n    ovec: int32*?\n    num3: [int32, float32, float64]\n    arrt: 'int32[col, row]'\n    dimname: string\n    big1: int32\n    big2: int32\n    ubig: uint32\n  computedFields:\n")
     for nme, src, _ in EXPRS:
         emodel += "    %s: '%s'\n" % (nme, src.replace("'", "''"))
     for nme, tgt, cases, _ in SW:
@@ -358,6 +367,8 @@ def run(ctx):
                         ("arr", A(P("int32"), (("row", None), ("col", None)))), ("farr", A(P("int32"), ((None, 2), (None, 2)))), ("mp", M(P("string"), P("int32"))),
                         ("inner", N("EInner")), ("un", U(((None, P("int32")), (None, P("string"))))), ("opt", Opt(P("int32"))),
                         ("nun", N("ENamedUn")), ("nou", U(((None, P("int32")), (None, P("string"))), True)),
+                        ("ostr", Opt(P("string"))), ("obool", Opt(P("bool"))), ("ofl", Opt(P("float64"))), ("ovec", Opt(V(P("int32")))),
+                        ("num3", U(((None, P("int32")), (None, P("float32")), (None, P("float64"))))),
                         ("arrt", A(P("int32"), (("col", None), ("row", None)))), ("dimname", P("string")), ("big1", P("int32")), ("big2", P("int32")), ("ubig", P("uint32"))]),
              Al("ENamedUn", U(((None, P("int32")), (None, P("string"))))),
              Proto("PEx", [("items", S(N("Ex")))])]
@@ -427,14 +438,20 @@ def run(ctx):
         mp = [("k", r.randint(-5, 5)), ("other", 1)]
         inner = [r.randint(-100, 100), r.randint(-100, 100)]
         un = (0, r.randint(-100, 100)) if r.random() < 0.5 else (1, "txt")
-        opt = None if r.random() < 0.4 else (0, r.randint(-100, 100))
+        opt = None if r.random() < 0.4 else (0, r.choice([0, r.randint(-100, 100)]))
+        ostr = [None, (0, ""), (0, "x"), (0, "0")][k % 4]
+        obool = [(0, False), None, (0, True)][k % 3]
+        ofl = [(0, f64(0.0)), (0, f64(2.5)), None, (0, f64(-0.0))][k % 4]
+        ovec = [(0, []), None, (0, [0]), (0, [4, 5])][k % 4]
+        num3 = [(0, 16777217), (1, f32(1.5)), (2, f64(2.25)), (0, -16777219), (0, 2147483647), (1, f32(16777216.0)), (2, f64(16777217.0))][k % 7]
         nun = (0, r.randint(-1000, 1000)) if r.random() < 0.5 else (1, "t%d" % r.randint(0, 9))
         nou = None if r.random() < 0.34 else ((0, r.randint(-1000, 1000)) if r.random() < 0.5 else (1, "u%d" % r.randint(0, 9)))
         arrt = [r.randint(-9, 9) for _ in range(20)]
         dimname = r.choice(["row", "col"])
         big1, big2, ubig = r.randint(50000, 90000), r.randint(50000, 90000), r.randint(70000, 4000000000)
-        items.append([ia, ib, ic, da, db, dc, vec, ((2, 3), arr), ((2, 2), farr), mp, inner, un, opt, nun, nou, ((4, 5), arrt), dimname, big1, big2, ubig])
-        envs.append(dict(ia=ia, ib=ib, ic=ic, da=da.value, db=db.value, dc=dc.value, vec=vec, arr=arr, farr=farr, mp=mp, inner=inner, un=un, opt=opt, nun=nun, nou=nou, arrt=arrt, dimname=dimname,
+        items.append([ia, ib, ic, da, db, dc, vec, ((2, 3), arr), ((2, 2), farr), mp, inner, un, opt, nun, nou, ostr, obool, ofl, ovec, num3, ((4, 5), arrt), dimname, big1, big2, ubig])
+        envs.append(dict(ia=ia, ib=ib, ic=ic, da=da.value, db=db.value, dc=dc.value, vec=vec, arr=arr, farr=farr, mp=mp, inner=inner, un=un, opt=opt, nun=nun, nou=nou, ostr=ostr, obool=obool, ofl=(None if ofl is None else (0, ofl[1].value)), ovec=ovec, num3=(num3[0], num3[1] if isinstance(num3[1], int) else num3[1].value),
+                         arrt=arrt, dimname=dimname,
                          big1=big1, big2=big2, ubig=ubig))
     pr, rows_cpp, res, rows_py = run_both("PEx", items)
     if rows_cpp is None or rows_py is None:
